@@ -1003,3 +1003,277 @@ def replay_conc(run, body):
 
 
 REPLAYERS["conc"] = replay_conc
+
+
+# =============================================================== Chain (C01 C09 C16 C17)
+
+RIDMAP = {0: -1, 7: 7, 8: 4294967295, 9: 0}
+
+
+def chain_text(c):
+    hs = []
+    for i, h in enumerate(c["hops"]):
+        hs.append("t%d=%s" % (i + 1, "build(c%d%s)" % (h["c"], ",rid=%s" % RIDMAP[h["rid"]] if h.get("rid") else "") if h["op"] == "build"
+                                else "append(t%d,c%d)" % (h["i"], h["c"]) if h["op"] == "append" else "seal(t%d)" % h["i"]))
+    s = " ".join(hs)
+    if c.get("atk"):
+        a = c["atk"]
+        sl = []
+        for b in a["bl"]:
+            sl.append("[c%d next=k%d sig=k%d:%s]" % (b["c"], b["next"], b["sig"]["key"], json.dumps(b["sig"]["payload"][:3])))
+        pf = a["pf"]
+        s += " | given=%s | attacker token %s proof=%s" % (sorted(c["given"]), " ".join(sl),
+                                                            "secret(k%d)" % pf["k"] if pf["t"] == "sec" else "final(k%d:%s)" % (pf["sig"]["key"], json.dumps(pf["sig"]["payload"][:3])))
+    return s
+
+
+def chain_judge(c, o, props):
+    if "harness" in o:
+        raise Infra("chain harness: " + o["harness"])
+    if "honest" not in o:
+        return ["driver: " + json.dumps(o)[:300]]
+    bad = []
+    for i, (ho, mt, h) in enumerate(zip(o["honest"], c["tokens"], c["hops"])):
+        n = "t%d" % (i + 1)
+        if "C01" in props:
+            if not ho["root"]:
+                bad.append("%s (honest %s) is rejected under the issuing root key" % (n, h["op"]))
+            if ho["other"]:
+                bad.append("%s verifies under a different root key" % n)
+        if "C16" in props:
+            if ho["rid"] != RIDMAP[mt["rid"]]:
+                bad.append("%s reports root key id %s, specification says %s" % (n, ho["rid"], RIDMAP[mt["rid"]]))
+            if "lookups" in c and ho["lookups"] != c["lookups"][i]:
+                bad.append("%s key lookup outcomes %s, specification says %s" % (n, ho["lookups"], c["lookups"][i]))
+        if "C17" in props:
+            if ho["nrev"] != len(mt["bl"]):
+                bad.append("%s has %d revocation ids for %d blocks" % (n, ho["nrev"], len(mt["bl"])))
+            if not ho["rev_is_sig"]:
+                bad.append("%s: a revocation id differs from the signature an independent decoder finds on that block" % n)
+            if not ho["rev_prefix"]:
+                bad.append("%s: revocation ids do not start with its parent's" % n)
+            if ho["rev_dup"]:
+                bad.append("%s: two different signing operations produced the same revocation id" % n)
+        if "C09" in props and mt["pf"]["t"] == "fin":
+            if not ho.get("sealed_frozen"):
+                bad.append("%s is sealed but Append or Seal on it (or on its reloaded copy) did not fail" % n)
+            if not ho.get("seal_same_code"):
+                bad.append("%s: sealing changed the token's content" % n)
+            if not ho["root"] or ho["nrev"] != len(mt["bl"]) or not ho["rev_prefix"]:
+                bad.append("%s: sealed token no longer verifies / changed its revocation ids" % n)
+    if c.get("atk") and "C01" in props:
+        if o.get("accept") != c["accept"]:
+            bad.append("attacker token is %s by the library (%s), specification says %s" % (
+                "ACCEPTED" if o.get("accept") else "rejected", o.get("stage", ""), "accept" if c["accept"] else "reject"))
+    return bad
+
+
+def chain_stage(run, driver, cases, props, label):
+    res = core.run_driver(driver, "chain", cases, per_case_timeout=120)
+    nbad = 0
+    for c in cases:
+        o = res[c["id"]]
+        run.count(chain_text(c) if (c.get("atk") or len(c["hops"]) >= 2) else None)
+        bad = chain_judge(c, o, props) if not o.get("crash") else ["process died: " + o.get("stderr", "")[-300:]]
+        if bad and nbad < 20:
+            nbad += 1
+            rc = confirm_case(driver, "chain", c, o, ("accept",)) if c.get("atk") else c
+            run.report({"case": chain_text(c)[:300], "what": bad[0][:60]}, dict(c, props=sorted(props)), "chain", "%s %s: %s" % (label, chain_text(c), "; ".join(bad[:3])),
+                       (lambda rc=rc: rc is not None))
+    run.traces += len(cases)
+
+
+def replay_chain(run, body):
+    driver = core.build_driver(run.work)
+    c = dict(body["case"])
+    props = set(c.pop("props"))
+    o = core.run_driver(driver, "chain", [c], nproc=1)[str(c["id"])]
+    bad = chain_judge(c, o, props) if not o.get("crash") else ["process died"]
+    run.count("replay")
+    if bad:
+        run.report(body["sig"], body["case"], "chain", "replayed: %s: %s" % (chain_text(c), "; ".join(bad[:3])))
+
+
+REPLAYERS["chain"] = replay_chain
+CHAIN_ASSUME = ["signatures are symbolic terms: ed25519 and protobuf are trusted, payloads of different shape never collide",
+                "block contents are drawn from two fixed contents (facts over default symbols), materialised as real marshalled blocks"]
+
+
+def chain_honest(run, driver, props, negs=()):
+    t = "thorough" if run.tier == "thorough" else "quick"
+    r = core.tlc(run.work, "Chain", "Chain_honest_" + t, timeout=1700)
+    run.add_tlc(r, "L1 honest-history invariants + export")
+    for n in negs:
+        rn = core.tlc(run.work, "Chain", "Chain_" + n, expect_violation=True)
+        run.add_tlc(rn, "negative model " + n)
+        if not rn.violated:
+            raise Infra("negative model Chain_%s holds" % n)
+        run.notes.append("negative model %s: TLC reports %s violated" % (n, rn.violated))
+    cases = r.cases
+    for i, c in enumerate(cases):
+        c["id"], c["emb"] = "h%d" % i, emb_of(run, i)
+    chain_stage(run, driver, cases, props, "L2 honest history")
+    run.sample({"honest_history": chain_text(cases[len(cases) // 2]), "lookups_expected": cases[len(cases) // 2]["lookups"]})
+    return cases
+
+
+@check("C01")
+def c01(run):
+    run.rule = ("L1: Chain.tla (symbolic Dolev-Yao chain: honest Build/Append/Seal, hand-over of any non-empty subset of honest tokens, "
+                "attacker assembling <=2-slot tokens from every known content, key, signature blob or fresh signature under any known "
+                "secret, any proof) is model-checked for Completeness and Unforgeability, and refuted when the signature does not cover "
+                "the next key or the proof is not checked. L2: every exported (history, given, attacker token) is materialised: honest "
+                "steps through the real library, the attacker's token on the bytes with an independent codec and crypto/ed25519 using "
+                "only the secrets the model grants; Unmarshal+AuthorizerFor must accept iff Chain!Verify. Non-trivial = distinct "
+                "attacker tokens / honest histories of >=2 operations.")
+    run.assumptions = CHAIN_ASSUME
+    driver = core.build_driver(run.work)
+    t = "thorough" if run.tier == "thorough" else "quick"
+    r = core.tlc(run.work, "Chain", "Chain_" + t, timeout=3000)
+    run.add_tlc(r, "L1 Completeness / Unforgeability, all attacker tokens + export")
+    for n in ("neg_nextkey", "neg_proof"):
+        rn = core.tlc(run.work, "Chain", "Chain_" + n, expect_violation=True)
+        run.add_tlc(rn, "negative model " + n)
+        if not rn.violated:
+            raise Infra("negative model Chain_%s holds" % n)
+        run.notes.append("negative model %s: TLC finds an attack (%s violated)" % (n, rn.violated))
+    import random
+    rnd = random.Random(run.seed)
+    acc = [c for c in r.cases if c["accept"]]
+    rej = [c for c in r.cases if not c["accept"]]
+    rnd.shuffle(rej)
+    cases = acc + rej[:60000 if run.tier == "quick" else 600000]
+    for i, c in enumerate(cases):
+        c["id"], c["emb"] = "a%d" % i, emb_of(run, i)
+    chain_stage(run, driver, cases, {"C01"}, "L2")
+    run.extra["attacker_tokens_model"] = len(r.cases)
+    run.extra["attacker_tokens_replayed"] = len(cases)
+    run.extra["accepted_by_model"] = len(acc)
+    run.sample({"case": chain_text(rej[0]), "spec_accepts": False})
+    if acc:
+        run.sample({"case": chain_text(acc[0]), "spec_accepts": True})
+    chain_honest(run, driver, {"C01"})
+
+
+@check("C09")
+def c09(run):
+    run.rule = ("L1: Chain.tla SealPreserves (a sealed token has the same blocks and revocation ids and verifies under exactly the same keys) "
+                "and the Append/Seal guards, over all honest histories of <=3/4 operations; seal mutations are instances of C01's attacker "
+                "synthesis on sealed tokens (Unforgeability: a sealed token is final). L2: histories replayed: sealed twins verify, keep "
+                "content and revocation ids, refuse Append and Seal before and after Serialize/Unmarshal; sealed/unsealed twins give the "
+                "same Authorize verdict for the authorizer panel (authz family, via=sealed).")
+    run.assumptions = CHAIN_ASSUME
+    driver = core.build_driver(run.work)
+    chain_honest(run, driver, {"C09", "C01"})
+    # seal mutations: the attacker configurations restricted to those that were given a sealed token
+    r = core.tlc(run.work, "Chain", "Chain_quick", timeout=3000)
+    run.add_tlc(r, "L1 Unforgeability incl. sealed tokens + export")
+    sealed = [c for c in r.cases if any(c["tokens"][g - 1]["pf"]["t"] == "fin" for g in c["given"])]
+    import random
+    random.Random(run.seed).shuffle(sealed)
+    sealed = sealed[:20000 if run.tier == "quick" else 200000]
+    for i, c in enumerate(sealed):
+        c["id"], c["emb"] = "s%d" % i, emb_of(run, i)
+    chain_stage(run, driver, sealed, {"C01"}, "L2 sealed-envelope mutation")
+    # same authorization outcome sealed vs unsealed: the two-block Authz instances with the token sealed
+    insts = []
+    ra = core.tlc(run.work, "AuthzMC", "AuthzMC_two", timeout=3000)
+    run.add_tlc(ra, "L1 Authz instances (verdicts to preserve under sealing)")
+    sub = ra.cases[::4 if run.tier == "quick" else 1]
+    cases = authz_cases(run, sub, "C09")
+    for dc in cases:
+        for t in dc["toks"]:
+            t["via"] = ["sealed", "sealedbytes"][dc["emb"] % 2]
+    res = core.run_driver(driver, "authz", cases, per_case_timeout=120)
+    for c, dc in zip(sub, cases):
+        o = res[dc["id"]]
+        run.count(("sealed-authz", dc["id"]))
+        bad = authz_judge(c, dc, o, "C09") if not o.get("crash") else ["process died"]
+        if bad:
+            rc = confirm_case(driver, "authz", dc, o, ("obs",))
+            run.report({"instance": inst_text(c), "sealed": True}, dict(dc, inst=c, mode="C09"), "authz", "sealed token: %s: %s" % (inst_text(c), "; ".join(bad)),
+                       (lambda rc=rc: rc is not None))
+    run.traces += len(cases)
+
+
+@check("C16")
+def c16(run):
+    run.rule = ("L1: Chain.tla IdPreserved (every derived token reports the identifier given at Build) and LookupExact (lookup verifies "
+                "against exactly the key registered under the token's identifier, or the default when it has none) over all honest histories "
+                "with identifiers {absent, 7, 2^32-1, 0} and five key maps (hit, right key only under another id, miss with default, miss "
+                "without default, default wrong); refuted for the pinned tree's Append/Seal (identifier dropped). L2: histories replayed, "
+                "RootKeyID() and the outcome class (ok / ErrNoPublicKeyAvailable / signature error) of every lookup compared.")
+    run.assumptions = CHAIN_ASSUME
+    driver = core.build_driver(run.work)
+    chain_honest(run, driver, {"C16"}, negs=("neg_rid",))
+
+
+@check("C17")
+def c17(run):
+    run.rule = ("L1: Chain.tla RevPerBlock, RevPrefix, RevUnique (equal identifiers only for the same signing operation: every payload "
+                "contains a fresh next key) over all honest histories incl. identical contents on the same and on different tokens. "
+                "L2: histories replayed with fresh randomness: one id per block, equal to the signature the independent codec decodes, "
+                "parent's ids as prefix, pairwise distinct across signing operations.")
+    run.assumptions = CHAIN_ASSUME
+    driver = core.build_driver(run.work)
+    chain_honest(run, driver, {"C17"})
+
+
+# =============================================================== C20 entropy failure
+
+def rng_judge(c, o):
+    if "outcome" not in o:
+        return ["driver: " + json.dumps(o)[:300]]
+    bad = []
+    if o["outcome"] != c["exp"]:
+        bad.append("outcome %s%s, specification says %s" % (o["outcome"], " (" + o.get("msg", "")[:120] + ")" if o.get("msg") else "", c["exp"]))
+    if o["outcome"] == "token":
+        if not o.get("key_from_delivered_bytes", True):
+            bad.append("the returned token's next key is not the one derived from the bytes the source delivered")
+        if not o.get("verifies", True):
+            bad.append("the returned token does not verify")
+    return bad
+
+
+@check("C20", "fault_enumeration")
+def c20(run):
+    run.rule = ("Entropy.tla enumerates every fault of the random source: operation in {Builder.Build+WithRNG, New, Append, Append after "
+                "reload} x bytes delivered before the failure k in 0..32 (32 = no failure) x failure kind {error, EOF, ErrUnexpectedEOF, "
+                "zero-byte read then error} x maximal read size {1, 7, 32}; TLC checks NoDegenerateKey / ErrorIffFault / termination and "
+                "exports each case with the specified outcome; each case is executed on the real library with a fault-injecting io.Reader "
+                "in a worker process (a panic or process death is a violation). Exhaustive over this space. Non-trivial = cases with k < 32.")
+    run.assumptions = ["the key generator reads exactly 32 bytes (self-calibrated against crypto/ed25519.GenerateKey of the toolchain)"]
+    driver = core.build_driver(run.work)
+    r = core.tlc(run.work, "Entropy", "Entropy", workers=4, deadlock=False)
+    run.add_tlc(r, "L1 fault space: NoDegenerateKey / ErrorIffFault / Terminates + export")
+    cases = r.cases
+    for i, c in enumerate(cases):
+        c["id"] = "e%d" % i
+    res = core.run_driver(driver, "rng", cases, per_case_timeout=60)
+    for c in cases:
+        o = res[c["id"]]
+        run.count((c["op"], c["k"], c["fault"], c["chunk"]) if c["k"] < 32 else None)
+        bad = rng_judge(c, o) if not o.get("crash") else ["process died: " + o.get("stderr", "")[-300:]]
+        if bad and len(run.violations) < 20:
+            rc = confirm_case(driver, "rng", c, o, ("outcome",))
+            run.report({"op": c["op"], "what": "panic" if "panic" in bad[0] else bad[0][:50]}, c, "rng",
+                       "%s with a source failing (%s) after %d bytes, reads of <=%d: %s" % (c["op"], c["fault"], c["k"], c["chunk"], "; ".join(bad)),
+                       (lambda rc=rc: rc is not None))
+    run.traces += len(cases)
+    run.exhaustive = True
+    run.extra["exhaustive"] = True
+    run.sample({"op": cases[5]["op"], "bytes_before_failure": cases[5]["k"], "fault": cases[5]["fault"], "max_read": cases[5]["chunk"], "specified": cases[5]["exp"]})
+
+
+def replay_rng(run, body):
+    driver = core.build_driver(run.work)
+    c = dict(body["case"])
+    o = core.run_driver(driver, "rng", [c], nproc=1)[str(c["id"])]
+    bad = rng_judge(c, o) if not o.get("crash") else ["process died"]
+    run.count("replay")
+    run.count("replay2")
+    if bad:
+        run.report(body["sig"], c, "rng", "replayed: " + "; ".join(bad))
+
+
+REPLAYERS["rng"] = replay_rng
